@@ -357,6 +357,21 @@ func (c *Ctx) OnFailureTo(fn *ssa.Function, g Guard, relDesc string, rel SinkSel
 		c.Bad("O", key, fn.Pos(), 0, "guard not found")
 		return
 	}
+	if len(g.Alts) > 1 {
+		// the guard fails only when every alternative fails: remove all passing edges and require rel before any end
+		rm := map[edge]bool{}
+		for _, s := range sites {
+			rm[s.Pass] = true
+		}
+		w := &Walker{P: c.P, Removed: rm, Stop: func(in ssa.Instruction) bool { return rel(in) }}
+		hit, found := w.Reach(fn, fn.Blocks[0], 0, func(in ssa.Instruction) bool { return !rel(in) && end(in) })
+		if found {
+			c.Bad("O", key, instrPos(hit.Instr), len(sites), fmt.Sprintf("%s at %s reachable although the guard failed, without %s; path %s", describeInstr(hit.Instr), c.P.Pos(instrPos(hit.Instr)), relDesc, c.P.pathStr(hit.Path)))
+			return
+		}
+		c.OK("O", key, instrPos(sites[0].If), len(sites), "")
+		return
+	}
 	for _, s := range sites {
 		b := s.Pass.from
 		var fail *ssa.BasicBlock
